@@ -15,6 +15,9 @@ CONSTANTS Ctx <- McCtxTerm
  ATo = {}
  AAmt = {}
  IAmt = {}
+ ACodes = {}
+ AIds = {}
+ BGL = {}
  BoxFrom = {}
  BoxTo = {}
  RewFrom = {}
